@@ -33,8 +33,8 @@ def SameSet (A B : List Name) : Prop := ∀ v, v ∈ A ↔ v ∈ B
 type of the expression and reads only its parents, population tag and, for the members of `H`, the child that
 carries their name (with its intervention subscripts), so a `Probability` must be `P_w(H ∪ E | Z)`:
 every member of `H` is a child; any further child `E` is redundant (it is also a parent or an intervened variable:
-`P(T, W | Z)` with `W ⊆ Z` denotes `P(T | Z)`); all children and parents are plain or carry the same un-starred
-intervention subscripts `w`; neither the parents nor the intervened variables are members of `H` (they need not
+`P(T, W | Z)` with `W ⊆ Z` denotes `P(T | Z)`); all children and parents carry the same un-starred
+intervention subscripts `w` (possibly none) and are not starred themselves (`+X`); neither the parents nor the intervened variables are members of `H` (they need not
 even be nodes of the graph).
 Other constructors carry no shape condition. -/
 def ProbShape (q : Expr) (H : List Name) : Prop :=
@@ -43,7 +43,7 @@ def ProbShape (q : Expr) (H : List Name) : Prop :=
       ∃ w : List Iv,
         (∀ h ∈ H, h ∈ children.map (·.name)) ∧
         (∀ c ∈ children, c.name ∈ H ∨ c.name ∈ parents.map (·.name) ∨ c.name ∈ w.map (·.name)) ∧
-        (∀ v ∈ children ++ parents, v.ivs = w ∧ v.star = none) ∧
+        (∀ v ∈ children ++ parents, v.ivs = w ∧ v.star ≠ some true) ∧
         (∀ i ∈ w, i.star = false ∧ i.name ∉ H) ∧
         (∀ p ∈ parents, p.name ∉ H)
   | _ => True
@@ -51,7 +51,7 @@ def ProbShape (q : Expr) (H : List Name) : Prop :=
 /-- the stricter shape `P_w(H | Z)` (children exactly the members of `H`, once each) implies `ProbShape` -/
 theorem probShape_of_exact (pop : Option Var) (children parents : List Var) (H : List Name)
     (w : List Iv) (h1 : (children.map (·.name)).Perm H)
-    (h2 : ∀ v ∈ children ++ parents, v.ivs = w ∧ v.star = none)
+    (h2 : ∀ v ∈ children ++ parents, v.ivs = w ∧ v.star ≠ some true)
     (h3 : ∀ i ∈ w, i.star = false ∧ i.name ∉ H)
     (h4 : ∀ p ∈ parents, p.name ∉ H) : ProbShape (.prob pop children parents) H :=
   ⟨w, fun _ hh => h1.mem_iff.mpr hh,
